@@ -137,8 +137,8 @@ def run(ctx):
         "proved_vs_tested": "proved, axiom-free: 19 theorems of Properties/C17.v about the exact-rational model. proved with the standard-library "
                             "real-number axioms (through Flocq), w.r.t. IEEE-754 binary64 semantics for Go's operation order: load_float_close, "
                             "rate_float_close, rate_float_order / rate_float_strict / model_order_float_sorted (order under rounding), "
-                            "load_float_monotone (same visiting order). trusted: Go's float64 is IEEE-754 binary64 round-to-nearest-even, int->float64 exact "
-                            "below 2^53. tested on this run, not proved: the bound for the float64 shares, and that the two models "
+                            "load_float_monotone (same visiting order), pct_float_close (shares). trusted: Go's float64 is IEEE-754 binary64 round-to-nearest-even, int->float64 exact "
+                            "below 2^53. tested on this run, not proved: that the two models "
                             "restate utils.go (the exact model is compared call by call; the float model is tied by one bit-exact Example)",
         "degenerate_calls_not_compared": int((re.search(r"DEGENERATE-CALLS-NOT-COMPARED (\d+)", mlog) or [0, 0])[1]),
         "trusted_base": [
@@ -155,7 +155,7 @@ def run(ctx):
         "shares are stated for a non-zero total rate only (entries_spec); on the property's domain a message makes the total positive (total_nonzero); an undefined bus type with only empty messages gives total 0 and NaN shares in Go (shares_unknown_type_refuted, open finding c17-nan-unknown-bus-type)",
         "Go's float64 arithmetic is IEEE-754 binary64 round-to-nearest-even and int->float64 is exact below 2^53 (trusted; the Flocq theorems are about exactly the operation order of utils.go)",
         "NO FUSED MULTIPLY-ADD: the float model rounds after every operation (x/y, then *1000, then +, then /baud, then *100). The Go specification allows an implementation to fuse x*y+z across operations on some architectures (arm64, ppc64, s390x); this run was on amd64 where the gc compiler does not fuse, and `a/b*1000` followed by `+=` in CalculateBusLoad has the shape tot + (q*1000) that could be fused elsewhere. On such a target the proved bound still holds (a fused operation rounds once instead of twice) but bit-exact agreement with the model does not",
-        "proved for float64 (Flocq): bound of the load, bound of every per-message rate, order under rounding, monotonicity of the float load for the same visiting order. Tested only: the bound of the float64 shares (Percentage), and load monotonicity across two different visiting orders (checked with the n*2^-50 slack)",
+        "proved for float64 (Flocq): bound of the load, bound of every per-message rate, order under rounding, monotonicity of the float load for the same visiting order, bound of every float64 share (Percentage). Tested only: load monotonicity across two different visiting orders (checked with the n*2^-50 slack)",
         "bus type is BusTypeCAN2A (the only constant the library defines); sizes 0..8, cycle times >= 0, as the property states",
         "map iteration order is an oracle: the model visits the messages in creation order, the theorems hold for every order (load_order_free, each_message_once)",
     ]
